@@ -121,6 +121,8 @@ class Interp:
     MAX_STATES = 512
 
     def __init__(self, fn: ast.FunctionDef, env: dict, helpers: Optional[dict] = None, consts: Optional[dict] = None):
+        from .core import canon_function
+        fn = canon_function(fn)
         self.fn = fn
         self.env0 = env
         self.helpers = helpers or {}
@@ -523,7 +525,12 @@ class _Run:
                 if isinstance(r, ast.FunctionDef) and not r.decorator_list:
                     self.i.helpers[n] = r
             if n in self.i.helpers and not (n in env and callable(env[n])):
+                from .core import canon_function
                 hfn = self.i.helpers[n]
+                if not getattr(hfn, "_qv_canon", False):
+                    hfn = canon_function(hfn)
+                    hfn._qv_canon = True
+                    self.i.helpers[n] = hfn
                 ps = [a.arg for a in hfn.args.args]
                 henv = {}
                 dflt = hfn.args.defaults
@@ -545,6 +552,12 @@ class _Run:
                 return env[n](*args, **kw)
             if n == "op" and "op" in env:
                 return env["op"](*args, **kw)
+            if n in ("int", "bool", "float") and len(args) == 1:
+                return args[0]
+            from . import core
+            mi = core._MODULE_OF.get(id(self.i.fn))
+            if mi is not None and n in mi.imports and mi.imports[n][0] not in core.ACTIVE_REPO.modules:
+                return Opaque(f"{n}()")  # an external function (version parsing, ...)
             raise Unknown(f"call {n}")
         # torch.* and method calls
         ft = U(f)
